@@ -64,7 +64,7 @@ func ruleR26(c *Ctx) {
 	info := c.m.Info
 	m := c.m
 	probe := c.e.probeKeys()
-	props := []string{"C13"}
+	_ = "C13"
 	// units reachable from the key-taking methods of the byte-keyed kinds
 	var roots []*FuncUnit
 	for _, tk := range c.byteKeyKinds() {
@@ -129,6 +129,10 @@ func ruleR26(c *Ctx) {
 	}
 	for _, u := range units {
 		fl := c.e.flow(u)
+		props := []string{"C13"}
+		if strings.Contains(strings.ToLower(u.Name), "collat") {
+			props = append(props, "C08") // keys are returned exactly as inserted
+		}
 		capturedFromOutside := func(v *types.Var) bool {
 			return u.Lit != nil && !(v.Pos() >= u.Lit.Pos() && v.Pos() <= u.Lit.End())
 		}
@@ -233,6 +237,10 @@ func ruleR26(c *Ctx) {
 	}
 	// closures: evaluate the deferred sinks at every call site of the closure
 	for lu, ds := range closureSinks {
+		props := []string{"C13"}
+		if strings.Contains(strings.ToLower(lu.Name), "collat") {
+			props = append(props, "C08")
+		}
 		// find the variable bound to this literal and its call sites in the parent
 		var bound *types.Var
 		for v, x := range m.LitOfVar {
